@@ -209,7 +209,7 @@ func checkValue(c *core.Ctx, p []cval, i int, pairs bool) {
 }
 
 func run(c *core.Ctx) {
-	p := pool(c.Thorough())
+	p := pool(true)
 	c.Note("pool_size", len(p))
 	c.Note("constructs", len(constructs))
 	for i := range p {
